@@ -67,6 +67,22 @@ CHECKS.update({
                 technique="TLA+ definition of referenced symbols evaluated by TLC; exhaustive publicity assignments replayed on the real validator"),
 })
 
+CHECKS.update({
+    "C11": dict(cat="exploration", ref="DESIGN.md 5/C11", note="Trusted base: TLC evaluating Literal.tla; the 13-character alphabet table of the harness. Bounded: literal bodies up to 4 (quick) / 6 (thorough) code units.",
+                text="Escape/Unescape are explicit TLA+ operators; TLC proves the round trip for every string within the bound and enumerates every valid literal body with "
+                     "its denotation; the decoder and the whole parse/evaluate pipeline must agree for every body, in every operand position. A pure function: "
+                     "exploration level, exhaustive within the bound.",
+                technique="TLA+ specification of the literal syntax; TLC-enumerated literal bodies replayed through ParseZqlString and ast.Parse/EvalBool"),
+})
+
+CHECKS.update({
+    "C12": dict(cat="exploration", ref="DESIGN.md 5/C12", note="Trusted base: TLC evaluating BoolExpr.tla; the re-spelling renderer of the harness. Bounded: trees up to 3 (quick) / 4 (thorough) atoms. "
+                "The shipped grammar gives and/or/not no relative precedence (known finding); the specification carries that reading as a named deviation so that all other grouping stays checked exactly.",
+                text="Trees over and/or/not are enumerated by TLC with their truth tables; the rendering conventions (and above or, chains associative, not (P)) are shown "
+                     "unambiguous by TLC; every tree is parsed and evaluated in several re-spellings (case, white space, redundant parentheses, word operators).",
+                technique="TLA+ specification of grouping; TLC-enumerated expression trees replayed through ast.Parse/EvalBool in re-spellings"),
+})
+
 NOT_YET = {
     "C01": "check under construction in this session (Query.tla); not claimed until it runs clean on the unchanged tree",
     "C02": "check under construction (Query.tla / ScanAlgo.tla)",
